@@ -39,6 +39,7 @@ import Driver.Small4
 import Driver.CrossType
 import Driver.AdpcmEnc
 import Driver.AbsTwin
+import Driver.AlacCore
 open Sf
 
 def lawOf (s : String) : Option G711.Law :=
@@ -123,4 +124,5 @@ def main (args : List String) : IO UInt32 := do
   | "crosstype" :: rest => CrossTypeDriver.cmd rest
   | "adpcmenc" :: rest => Driver.AdpcmEnc.cmd rest
   | "abs-twin" :: rest => AbsTwinDriver.cmd rest
+  | "alaccore" :: rest => Driver.AlacCore.cmd rest
   | _ => IO.eprintln "usage: sfmodel <g711|...> ..."; return 2
